@@ -38,10 +38,15 @@ fn random_matrix(rng: &mut Rng) -> Matrix4<f32> {
         }
     }
     if proj {
-        for j in 0..3 {
-            m[(3, j)] = rng.uniform(-0.1, 0.1) as f32;
+        if rng.chance(0.5) {
+            for j in 0..3 {
+                m[(3, j)] = rng.uniform(-0.1, 0.1) as f32;
+            }
+            m[(3, 3)] = rng.uniform(0.8, 1.2) as f32;
+        } else {
+            // affine with a homogeneous scale w != 1
+            m[(3, 3)] = *rng.pick(&[0.5f32, 0.75, 2.0, 3.0]);
         }
-        m[(3, 3)] = rng.uniform(0.8, 1.2) as f32;
     }
     m
 }
@@ -166,6 +171,10 @@ fn check_backend<F: Backend>(
                 if *var != miss {
                     sv2.insert(var.index().unwrap(), val_of[var]);
                 }
+            }
+            // unrelated extras, sometimes more of them than needed variables
+            for _ in 0..*rng.pick(&[0usize, 1, 2, 5, 50]) {
+                sv2.insert(Var::new().index().unwrap(), rng.uniform(-5.0, 5.0) as f32);
             }
             st.inc("missing_var_checks");
             match ev.eval_with_vars(&tape, pos[0], pos[1], pos[2], &sv2) {
@@ -312,6 +321,35 @@ fn check_backend<F: Backend>(
                 }
             }
             // the transformed value lanes are the nalgebra-transformed points
+            // the transformed partials follow the quotient rule of the
+            // homogeneous divide: d(n_k / w) = (dn_k * w - n_k * dw) / w^2
+            for j in 0..n {
+                let inp = [gx[j], gy[j], gz[j]];
+                let lin = |r: usize| -> (f64, [f64; 3]) {
+                    let mut v = m[(r, 3)] as f64;
+                    let mut d = [0f64; 3];
+                    for c in 0..3 {
+                        v += m[(r, c)] as f64 * inp[c].v as f64;
+                        d[0] += m[(r, c)] as f64 * inp[c].dx as f64;
+                        d[1] += m[(r, c)] as f64 * inp[c].dy as f64;
+                        d[2] += m[(r, c)] as f64 * inp[c].dz as f64;
+                    }
+                    (v, d)
+                };
+                let (w, dw) = lin(3);
+                for k in 0..3 {
+                    let (nk, dnk) = lin(k);
+                    let got = [tin[k][j].dx as f64, tin[k][j].dy as f64, tin[k][j].dz as f64];
+                    for c in 0..3 {
+                        let want = (dnk[c] * w - nk * dw[c]) / (w * w);
+                        let scale = (dnk[c] * w).abs().max((nk * dw[c]).abs()) / (w * w) + 1e-30;
+                        st.inc("grad_transform_partials_judged");
+                        if !((got[c] - want).abs() <= 64.0 * f32::EPSILON as f64 * scale) {
+                            return Err(v("grad_transform_partial", format!("the gradient evaluator's transformed coordinate {k} has partial {c} = {:e}, the quotient rule of the homogeneous divide gives {want:e}", got[c]), setup()));
+                        }
+                    }
+                }
+            }
             // the transformed value lanes are the transformed positions
             // (documented: nalgebra's transform_point), up to rounding of
             // a different summation order
